@@ -35,6 +35,27 @@ Qed.
 Lemma hex_decode_lower12 t b : hex_decode t = Some b -> map hex_lower t = hex_encode b.
 Proof. apply (hex_decode_lower12_n (List.length t)). lia. Qed.
 
+(* ... and every case variant is accepted *)
+Lemma hex_val_of_lower12 c x : hex_val (hex_lower c) = Some x -> hex_val c = Some x.
+Proof. destruct c; intros H; vm_compute in H; try discriminate; injection H as <-; vm_compute; reflexivity. Qed.
+
+Lemma hex_decode_of_lower12 : forall b t, map hex_lower t = hex_encode b -> hex_decode t = Some b.
+Proof.
+  induction b as [|b0 r IH]; intros t H.
+  - destruct t; [reflexivity|discriminate].
+  - cbn [hex_encode] in H. destruct t as [|a [|c t]]; try discriminate. cbn [map] in H.
+    injection H as Ha Hc Ht.
+    assert (Hq : b2n b0 / 16 < 16) by (apply N.div_lt_upper_bound; [lia|]; pose proof (b2n_lt b0); lia).
+    assert (Hm : b2n b0 mod 16 < 16) by (apply N.mod_lt; lia).
+    pose proof (hex_val_char _ Hq) as H1. pose proof (hex_val_char _ Hm) as H2.
+    rewrite <- Ha in H1. rewrite <- Hc in H2. apply hex_val_of_lower12 in H1. apply hex_val_of_lower12 in H2.
+    cbn [hex_decode]. rewrite H1, H2, (IH t Ht).
+    f_equal. f_equal. rewrite <- (n2b_b2n b0) at 3. f_equal. pose proof (N.div_mod' (b2n b0) 16). lia.
+Qed.
+
+Lemma hex_decode_iff12 t b : hex_decode t = Some b <-> map hex_lower t = hex_encode b.
+Proof. split; [apply hex_decode_lower12|apply hex_decode_of_lower12]. Qed.
+
 Section AuditC12.
   Variable H : bytes -> bytes.
   Variable valid_pk : bytes -> bool.
